@@ -146,7 +146,7 @@ Ltac dmatch :=
   end.
 
 Ltac unfold_step :=
-  unfold step, offer, try_add, enqueue, read, done, signal, deliver, handoff, find_res, lock_free, pool_get, pool_put.
+  unfold step, offer, try_add, enqueue, read, done, signal, deliver, handoff, find_res, lock_free, pool_get, pool_put, bcast.
 
 (* goal:  step c s l = Some (s', z) -> G s'   ==>  one goal per path through the code *)
 Ltac step_cases :=
@@ -166,7 +166,8 @@ Definition tokinv (s : st) : Prop :=
   0 <= waiting s /\
   cnt is_insel (prods s) + cnt is_leftctx (prods s) = waiting s + b2z (tok s) + sb s /\
   (forall k, lock s = BSend k -> tok s = true) /\
-  (forall p, lock s <> BRecv p).
+  (forall p, lock s <> BRecv p) /\
+  (lock s = BBcast -> tok s = true /\ 0 < waiting s).
 
 Lemma tokinv_init : tokinv init.
 Proof. unfold tokinv, sb. simpl. repeat split; try lia; intros; discriminate. Qed.
@@ -177,10 +178,13 @@ Proof.
   pose proof (cnt_nonneg is_insel (prods s)) as N1.
   pose proof (cnt_nonneg is_leftctx (prods s)) as N2.
   revert N1 N2. revert H.
-  step_cases; intros N1 N2 (I1 & I2 & I3 & I4); cnt_rw;
-    try (specialize (I3 _ eq_refl)); unfold b2z in *;
-    repeat split; try lia; try (intros; congruence); try (intros; discriminate).
-  exfalso. pose proof (cnt_ge_of_pget is_leftctx _ _ _ Heqo eq_refl). lia.
+  step_cases; intros N1 N2 (I1 & I2 & I3 & I4 & I5); cnt_rw;
+    try (specialize (I3 _ eq_refl)); try (destruct (I5 eq_refl) as [I5a I5b]); unfold b2z in *;
+    try match goal with
+    | H : pget ?p (prods s) = Some (PLeftCtx ?sz) |- _ => pose proof (cnt_ge_of_pget is_leftctx _ _ _ H eq_refl)
+    end;
+    repeat split; try lia; try (intros; congruence); try (intros; discriminate);
+    try (exfalso; lia).
 Qed.
 
 (* ---- B. size accounting ------------------------------------------------------------------------------ *)
